@@ -142,6 +142,10 @@ pub struct Online {
     applied_cmds: BTreeMap<u64, d_engine_core::Command>,
     pub final_state_checks: u64,
     pub checkpoints: u64,
+    /// node -> virtual time at which its current incarnation entered the Raft loop
+    loop_started: HashMap<u32, u64>,
+    started_as_learner: BTreeSet<u32>,
+    pub watch: super::watchmon::WatchMon,
 }
 
 pub fn maj(n: usize) -> usize {
@@ -216,6 +220,9 @@ impl Online {
             applied_cmds: BTreeMap::new(),
             final_state_checks: 0,
             checkpoints: 0,
+            loop_started: HashMap::new(),
+            started_as_learner: BTreeSet::new(),
+            watch: super::watchmon::WatchMon::default(),
         }
     }
 
@@ -254,6 +261,7 @@ impl Online {
 
     pub fn on_event(&mut self, t: u64, ev: &Ev) {
         self.seq += 1;
+        self.watch.on_event(t, ev);
         {
             let (view, roles) = (&self.view, &self.roles);
             self.lease.on_event(t, ev, view, roles);
@@ -271,7 +279,12 @@ impl Online {
             _ => {}
         }
         match ev {
-            Ev::Start { node, inc, .. } => {
+            Ev::Start { node, inc, learner } => {
+                if *learner {
+                    self.started_as_learner.insert(*node);
+                } else {
+                    self.started_as_learner.remove(node);
+                }
                 self.incarnation.insert(*node, *inc);
                 self.live.insert(*node);
                 if *inc > 0 {
@@ -279,7 +292,21 @@ impl Online {
                     self.restarted.entry(*node).or_insert((0, None)).0 += 1;
                 }
             }
+            Ev::LoopStart { node, .. } => {
+                // `Raft::run` of a node configured as learner first tries to fetch an initial
+                // snapshot from the leader (connect + startup timeouts) before it serves anything
+                let grace = if self.started_as_learner.contains(node) { 5_000 } else { 0 };
+                self.loop_started.insert(*node, t + grace);
+            }
+            Ev::NodeExit { node, fatal, .. } if !*fatal => {
+                // a node whose join failed never served anything and terminates: like a stop
+                self.crashed_at.entry(*node).or_default().push(t);
+                self.roles.remove(node);
+                self.live.remove(node);
+                self.loop_started.remove(node);
+            }
             Ev::Crash { node, .. } | Ev::Stop { node, .. } => {
+                self.loop_started.remove(node);
                 self.crashed_at.entry(*node).or_default().push(t);
                 self.roles.remove(node);
                 self.live.remove(node);
@@ -592,6 +619,10 @@ impl Online {
                         // a broken connection, not a silently dropped request
                         let (n, it) = self.ops.get(op).map(|(_, n, _, it)| (*n, *it)).unwrap_or((0, 0));
                         if self.restarted_between(n, it, t) || !self.roles.contains_key(&n) && self.crashed_at.contains_key(&n) {
+                            return;
+                        }
+                        // the node must have been serving (inside its Raft loop) when asked
+                        if !self.loop_started.get(&n).is_some_and(|ls| *ls <= it) {
                             return;
                         }
                         let d = self.ops.get(op).map(|(c, n, w, it)| json!({"client": c, "node": n, "op": super::record::op_json(w), "invoked_at": it}));
@@ -976,11 +1007,27 @@ impl Online {
         if !via_cmd || !self.live.contains(&node) || self.restarted_between(node, it, t) {
             return;
         }
-        let kind = match &what {
-            ClientOp::Read { .. } => "read",
-            ClientOp::Scan { .. } => "scan",
-            _ => "write",
+        if !self.loop_started.get(&node).is_some_and(|ls| *ls <= it) {
+            return;
+        }
+        let mut kind: String = match &what {
+            ClientOp::Read { .. } => "read".into(),
+            ClientOp::Scan { .. } => "scan".into(),
+            _ => "write".into(),
         };
+        // mechanism, when it can be told from what was observed
+        let inc = self.incarnation.get(&node).cloned().unwrap_or(0);
+        let applied_here = unique_value(&what)
+            .and_then(|v| self.applied_values.get(&v).cloned())
+            .is_some_and(|a| a.iter().any(|x| x.0 == node));
+        let backlog = self.commit_index.get(&node).cloned().unwrap_or(0)
+            > self.last_applied.get(&(node, inc)).cloned().unwrap_or(0);
+        if applied_here {
+            kind.push_str(":applied-on-the-answering-node-but-never-answered");
+        } else if backlog {
+            // committed entries are waiting for the answering node's state machine
+            kind.push_str(":answering-node-apply-backlog");
+        }
         self.find(
             t,
             "C30",
